@@ -271,3 +271,29 @@ func (t *Timeline) SegName(rep *vod.Rep, n int64) string {
 	}
 	return rep.MediaName(uint64(t.Start(n)), true)
 }
+
+// ExactInstant reports whether availability instant u is computed without rounding by any arithmetic:
+// a whole second reached with a whole-second ato.
+func (t *Timeline) ExactInstant(u int64) bool {
+	return t.WholeSecond(u) && (t.Cfg.AtoMS%1000 == 0)
+}
+
+// NewestRange returns the range [lo,hi] of live indices acceptable as "newest segment that has ended (less ato)"
+// at nowMS: the exact answer, widened by one when an availability instant that is not exact lies within tolU of now
+// (the MPD path truncates now and ato to media ticks, the segment path uses float64 seconds).
+func (t *Timeline) NewestRange(nowMS, tolU int64) (lo, hi int64) {
+	n, _ := t.LastAvailable(nowMS)
+	lo, hi = n, n
+	now := t.NowU(nowMS)
+	if n >= 0 {
+		if an := t.AvailU(n); !t.ExactInstant(an) && now-an < tolU {
+			lo = n - 1
+		}
+	}
+	if !t.Cfg.AtoInf() && now >= t.Cfg.StartS*1000*t.TS() {
+		if nx := t.AvailU(n + 1); !t.ExactInstant(nx) && nx-now < tolU {
+			hi = n + 1
+		}
+	}
+	return lo, hi
+}
